@@ -348,7 +348,7 @@ def make_jobs(tier, exes):
         for evk, fl, ff, data, isel, cbn, tptn in chunk:
             w.u16(evk).u16(fl).u32(ff).u64(data).u8(isel).u8(cbn).u8(tptn)
         jobs.append(("valid", w.done(), chunk, exes))
-    for i in range(300 if tier == "quick" else 4000):
+    for i in range(300 if tier == "quick" else 12000):
         steps = gen_history(rng, tier)
         jobs.append(("hist", encode_history(rng.u64(), steps), steps, exes))
     return jobs
